@@ -28,6 +28,59 @@ type StreamSpec struct {
 	Ops   []gen.Op      `json:"ops,omitempty"`
 	Raw   []byte        `json:"raw,omitempty"`
 	Mut   []Mutation    `json:"mut,omitempty"`
+	// Shift 1..7 (kinds std/fast): the encoder's stream does not start at a byte boundary: it is
+	// preceded by non-final fixed-Huffman blocks (empty ones of 10 bits, and one holding the single
+	// literal 0xC8 of 19 bits) whose total length is Shift modulo 8
+	Shift int `json:"shift,omitempty"`
+}
+
+// shiftPrefix returns the prefix blocks for a bit shift of k (1..7): their bits (LSB first), the
+// number of bits, and the bytes they decode to.
+func shiftPrefix(k int) (bits uint64, n uint, out []byte) {
+	put := func(v uint64, w uint) {
+		bits |= v << n
+		n += w
+	}
+	empty := func() { put(0b010, 3); put(0, 7) } // BFINAL=0, BTYPE=01 (LSB first: 0,1,0), end-of-block 0000000
+	lit := func() {
+		put(0b010, 3)
+		// literal 0xC8 = 200: fixed code 110010000+ (200-144) = 0b110010000 + 56 = 9 bits, written MSB first
+		code := uint64(0b110010000 + 200 - 144)
+		for i := 8; i >= 0; i-- {
+			put(code>>uint(i)&1, 1)
+		}
+		put(0, 7)
+		out = append(out, 0xC8)
+	}
+	// 10a + 19b = k (mod 8): b = k&1 (19 is odd), then a from the even remainder
+	if k&1 == 1 {
+		lit()
+	}
+	for n%8 != uint(k) {
+		empty()
+	}
+	return
+}
+
+// shiftStream puts prefix blocks of k bits (mod 8) in front of the stream z.
+func shiftStream(z []byte, k int) (shifted []byte, prefixOut []byte, prefixBits uint) {
+	bits, n, out := shiftPrefix(k)
+	acc, nacc := bits, n
+	var res []byte
+	for nacc >= 8 {
+		res = append(res, byte(acc))
+		acc >>= 8
+		nacc -= 8
+	}
+	for _, b := range z {
+		acc |= uint64(b) << nacc
+		res = append(res, byte(acc))
+		acc >>= 8
+	}
+	if nacc > 0 {
+		res = append(res, byte(acc))
+	}
+	return res, out, n
 }
 
 // Build returns the stream bytes and, when known by construction, the bytes it encodes.
@@ -64,6 +117,27 @@ func (s StreamSpec) Build() (z []byte, expected []byte, known bool, err error) {
 		expected, known = data, true
 	default:
 		z = append([]byte(nil), s.Raw...)
+	}
+	if s.Shift > 0 && s.Shift < 8 && (s.Kind == "std" || s.Kind == "fast") {
+		// a stored block (sync markers included) pads to a byte boundary of the stream it was written
+		// into, so only streams made of Huffman blocks alone can be moved to another bit position
+		ref := refinflate.Inflate(z, refinflate.Options{})
+		movable := ref.Verdict == refinflate.Valid
+		for _, b := range ref.Blocks {
+			if b.Type == 0 {
+				movable = false
+			}
+		}
+		if movable {
+			var pre []byte
+			var nbits uint
+			z, pre, nbits = shiftStream(z, s.Shift)
+			// the moved stream ends where its last bit is: a byte of nothing but the old padding is not part of it
+			if end := (int64(nbits) + ref.EndBit + 7) / 8; int(end) < len(z) {
+				z = z[:end]
+			}
+			expected = append(pre, expected...)
+		}
 	}
 	if len(s.Mut) > 0 {
 		z = append([]byte(nil), z...)
@@ -205,6 +279,9 @@ func drawSynth(t *rapid.T) *synth.Stream {
 			s.Blocks = append(s.Blocks, drawBlock(t, mode == 2))
 		}
 	}
+	// the padding bits before a stored block's LEN and after the final block are unspecified: mostly
+	// zero as every encoder writes them, sometimes random
+	s.PadBits = rapid.IntRange(0, 4).Draw(t, "padbits") == 0
 	return s
 }
 
@@ -221,6 +298,9 @@ func drawEncoded(t *rapid.T, kind string, max int) StreamSpec {
 	r := gen.DrawRecipe(t, max)
 	s.Data = &r
 	s.Ops = gen.DrawWriteOps(t, r.Len(), true)
+	if rapid.IntRange(0, 2).Draw(t, "shifted") == 0 {
+		s.Shift = rapid.IntRange(1, 7).Draw(t, "shift")
+	}
 	return s
 }
 
@@ -238,7 +318,7 @@ func drawValidStream(t *rapid.T, max int) StreamSpec {
 
 var faultKinds = []string{synth.FDistTooFar, synth.FDistTooFar, synth.FIncompleteDist, synth.FIncompleteDist, synth.FUnassignedDist, synth.FNoDistCode, synth.FOverLit, synth.FOverDist, synth.FOverCL,
 	synth.FIncompleteLit, synth.FMissingEOB, synth.FRepeatFirst, synth.FRunPast, synth.FStoredLen, synth.FReserved, synth.FBadLenSym, synth.FBadDistSym, synth.FHLIT,
-	synth.FRawDistLens, synth.FRawDistLens}
+	synth.FRawDistLens, synth.FRawDistLens, synth.FRawLitLens, synth.FRawLitLens, synth.FHDIST, synth.FRunPast}
 
 // drawFaultyStream draws a synthesised stream with one injected fault.
 func drawFaultyStream(t *rapid.T) StreamSpec {
@@ -259,6 +339,25 @@ func drawFaultyStream(t *rapid.T) StreamSpec {
 		}
 		if p.MatchPct < 30 {
 			p.MatchPct = 30
+		}
+	}
+	if f.Kind == synth.FRunPast {
+		// which run symbol overshoots (18 / 17 / 16), with which extra bits, and whether the item list is cut first
+		f.Arg = rapid.IntRange(0, 767).Draw(t, "runpast")
+		f.At = rapid.IntRange(1, 300).Draw(t, "runpastcut")
+	}
+	if f.Kind == synth.FRawLitLens {
+		// any multiset of literal/length code lengths (complete, incomplete, over-subscribed): long codes
+		// spread over many short prefixes stress the size of the decoder's long-code table
+		lo := rapid.SampledFrom([]int{1, 7, 10, 12, 12, 13}).Draw(t, "rawlo")
+		n := rapid.SampledFrom([]int{3, 30, 257, 286, 286}).Draw(t, "rawn")
+		zeroEvery := rapid.SampledFrom([]int{0, 2, 10}).Draw(t, "rawzero")
+		for i := 0; i < n; i++ {
+			l := rapid.IntRange(lo, 15).Draw(t, "rawlen")
+			if zeroEvery > 0 && rapid.IntRange(0, zeroEvery).Draw(t, "rawz") == 0 {
+				l = 0
+			}
+			f.Lens = append(f.Lens, l)
 		}
 	}
 	if f.Kind == synth.FRawDistLens {
